@@ -633,6 +633,12 @@ func genC04(g *G, sc *Scenario, tier string) {
 		if sc.Ops[i].K == "txn" && g.P(0.3) {
 			sc.Ops[i].K = "ctxtxn"
 		}
+		if (sc.Ops[i].K == "txn" || sc.Ops[i].K == "ctxtxn") && g.P(0.15) {
+			// the transaction also writes an entity of its own into core.Dataset (unusual, but a dataset like any other):
+			// all of its parts or none of them
+			e := Ent{"id": MkE + "inCore", "props": map[string]any{c.PropKeys[0]: fmt.Sprintf("t%d", i)}, "refs": map[string]any{}}
+			sc.Ops[i].Parts = append(sc.Ops[i].Parts, Part{DS: "core.Dataset", Ents: []Ent{e}})
+		}
 	}
 	if g.P(0.06) {
 		// a batch larger than what the store takes in one transaction (with or without an entity it must refuse at the
